@@ -109,7 +109,14 @@ def case_st(draw):
     part_names = [n for n, _ in pd]
     sels = []
     for _ in range(draw(st.integers(2, 4))):
-        kind = draw(st.sampled_from(["groups", "off", "vars", "vars", "vars", "mixed"]))
+        kind = draw(st.sampled_from(["groups", "off", "vars", "vars", "vars", "mixed", "sinkvars"]))
+        if kind == "sinkvars":
+            cols = list((case.get("sink") or {}).get("cols") or [])
+            if len(cols) >= 2:
+                # a list of names for the sink group too, in an order of its own
+                sels.append({"k": "sinkvars", "v": {"sink": list(draw(st.permutations(cols)))[: draw(st.integers(2, len(cols)))]}})
+                continue
+            kind = "vars"
         if kind == "groups":
             sels.append({"k": "groups", "v": draw(st.lists(st.sampled_from(["mesh", "part", "sink"]), min_size=1,
                                                            max_size=2, unique=True))})
@@ -289,7 +296,18 @@ def subset(case, r):
                     r.bad(["select", "group-presence", sel["k"]], f"select={arg!r}: group {g} present={g in sub.keys()} "
                           f"expected {should}")
                     return
-            if "sink" in want_groups and have_sink and "sink" in sub.keys():
+            if sel["k"] == "sinkvars" and have_sink and "sink" in sub.keys():
+                # every requested column that comes back equals the full load's (whether the others come back too is not judged)
+                fs, ff = _flatten(sub["sink"]), flat_full["sink"]
+                missing = [n for n in sel["v"]["sink"] if (n, "") in ff and (n, "") not in fs]
+                wrong = [k for k in fs if k in ff and (fs[k].unit != ff[k].unit or fs[k].shape != ff[k].shape or not np.array_equal(
+                    np.asarray(fs[k].values), np.asarray(ff[k].values), equal_nan=True))]
+                if missing or wrong:
+                    r.bad(["select", "sink-variable-list"], f"select={arg!r}: requested columns missing {missing}; columns that "
+                          f"differ from the full load's {wrong}")
+                    return
+                r.label("sink_variable_list")
+            elif "sink" in want_groups and have_sink and "sink" in sub.keys():
                 fs, ff = _flatten(sub["sink"]), flat_full["sink"]
                 if sorted(fs) != sorted(ff) or any(
                         fs[k].unit != ff[k].unit or fs[k].shape != ff[k].shape or not np.array_equal(
